@@ -170,7 +170,13 @@ Definition raise (p : payload) (s : state) := handle_throw p s.
 Fixpoint run_acts (ex : node -> state -> state * outcome) (ns : list node) (s : state) : state * outcome :=
   match ns with
   | [] => (s, ONorm)
-  | n :: r => let (s1, o) := ex n s in match o with ONorm => run_acts ex r s1 | _ => (s1, o) end
+  | n :: r =>
+      let (s1, o) := ex n s in
+      match o with
+      | ONorm => run_acts ex r s1
+      | OPanic p => (s1, OPanic p)
+      | _ => (s1, OStuck)            (* a run-loop item among native actions: ill-formed tree *)
+      end
   end.
 
 (* the instructions of a run loop: vm.run() polls the interrupt flag before every instruction *)
@@ -178,7 +184,13 @@ Fixpoint run_items (ex : node -> state -> state * outcome) (ns : list node) (s :
   if intr s then raise PIntr s else
   match ns with
   | [] => (s, ONorm)
-  | n :: r => let (s1, o) := ex n s in match o with ONorm => run_items ex r s1 | _ => (s1, o) end
+  | n :: r =>
+      let (s1, o) := ex n s in
+      match o with
+      | ONorm => run_items ex r s1
+      | OPanic _ => (s1, OStuck)     (* a native action among run-loop items: ill-formed tree *)
+      | _ => (s1, o)
+      end
   end.
 
 (* what the owner of a run loop sees *)
@@ -488,7 +500,7 @@ Definition node_step (nd : node) (s : state) : state * outcome :=
       | r => r
       end
   | RefCall body =>
-      match ex (Call body) (set_refs (S (refs s)) s) with
+      match call_node body (set_refs (S (refs s)) s) with
       | (s1, ONorm) => (set_refs (Nat.pred (refs s1)) s1, ONorm)
       | r => r
       end
@@ -561,34 +573,30 @@ Fixpoint run_batch (js : list job) (s : state) : state * outcome :=
       end
   end.
 
-(* outermost RunProgram (runtime.go:1434, not recursive); third component: the error returned *)
+(* outermost RunProgram (runtime.go:1434, not recursive); third component: the error returned.
+   top_fin: the deferred function drops the bottom context; top_recover: its recover() branch *)
+Definition top_fin (s : state) : state := set_cs (tl (cs s)) s.
+Definition top_recover (inbody : bool) (s : state) (p : payload) : state * outcome * option payload :=
+  let s0 := top_fin s in
+  if uncatchable_err p then
+    (* len(vm.callStack) == 0: vm.prg = nil; vm.sb = -1; leaveAbrupt *)
+    ((if Nat.eqb (length (cs s0)) 0 then leave_abrupt (set_sb (-1) (set_prg false s0)) else s0), ONorm, Some p)
+  else
+    let s' := if fixed then set_sb (-1) (set_prg false s0)
+              else if inbody && prg s0 then deviate 22 s0 else s0 in
+    (host_panic_exit s', OPanic p, None).
+(* vm.prg = nil; vm.sb = -1; r.leave() *)
+Definition top_leave (s2 : state) (err : option payload) : state * outcome * option payload :=
+  match lv (set_sb (-1) (set_prg false (pop_try s2))) with
+  | (s3, ONorm) => (top_fin s3, ONorm, err)
+  | (s3, OPanic p) => top_recover false s3 p
+  | (s3, o) => (s3, o, None)
+  end.
 Definition run_top_step (body : list node) (s : state) : state * outcome * option payload :=
-  let fin (s : state) := set_cs (tl (cs s)) s in
-  let recov (inbody : bool) (s : state) (p : payload) : state * outcome * option payload :=
-    let s0 := fin s in
-    if uncatchable_err p then
-      (* len(vm.callStack) == 0: vm.prg = nil; vm.sb = -1; leaveAbrupt *)
-      ((if Nat.eqb (length (cs s0)) 0 then leave_abrupt (set_sb (-1) (set_prg false s0)) else s0), ONorm, Some p)
-    else
-      let s' := if fixed then set_sb (-1) (set_prg false s0)
-                else if inbody && prg s0 then deviate 22 s0 else s0 in
-      (host_panic_exit s', OPanic p, None) in
   let s1 := set_prg true (set_cs (halt_ctx :: cs s) s) in
   match loop_out (run_items ex body (push_try true false false s1)) with
-  | (s2, ONorm) =>
-      match lv (set_sb (-1) (set_prg false (pop_try s2))) with
-      | (s3, ONorm) => (fin s3, ONorm, None)
-      | (s3, OPanic p) => recov false s3 p
-      | (s3, o) => (s3, o, None)
-      end
-  | (s2, OPanic p) =>
-      if catchable p then
-        match lv (set_sb (-1) (set_prg false (pop_try s2))) with
-        | (s3, ONorm) => (fin s3, ONorm, Some p)
-        | (s3, OPanic p') => recov false s3 p'
-        | (s3, o) => (s3, o, None)
-        end
-      else recov true (pop_try s2) p
+  | (s2, ONorm) => top_leave s2 None
+  | (s2, OPanic p) => if catchable p then top_leave s2 (Some p) else top_recover true (pop_try s2) p
   | (s2, o) => (s2, o, None)
   end.
 
